@@ -625,8 +625,9 @@ func (e *escaper) escapeTemplateBody(c, out context, t *template.Template) (cont
 			// accurate output context.
 			return true
 		}
-		// c1 is accurate if it matches our assumed output context.
-		return out.eq(c1)
+		// c1 is accurate if it matches our assumed output context, also in what it says
+		// about the attribute value so far: the recursive calls returned the assumption.
+		return out.same(c1)
 	}
 	// We need to assume an output context so that recursive template calls
 	// take the fast path out of escapeTree instead of infinitely recursing.
